@@ -13,12 +13,25 @@ type ControlChans struct {
 }
 
 type pauseManager struct {
-	subscribers sync.Map // Map of *ControlChans to struct{}
+	lockOnce    sync.Once
+	lock        chan struct{} // 1-slot semaphore serializing Pause and Resume calls coming from independent controllers
+	subscribers sync.Map      // Map of *ControlChans to struct{}
 	isPaused    atomic.Bool
 	message     string
 }
 
 var manager = &pauseManager{}
+
+// acquire takes the manager's lock and returns the function releasing it.
+// A channel is used rather than a sync.Mutex so that callers blocked here
+// are seen as such by testing/synctest based tests.
+func (m *pauseManager) acquire() (release func()) {
+	m.lockOnce.Do(func() {
+		m.lock = make(chan struct{}, 1)
+	})
+	m.lock <- struct{}{}
+	return func() { <-m.lock }
+}
 
 // Subscribe returns a ControlChans struct for the subscriber to use.
 func Subscribe() *ControlChans {
@@ -43,6 +56,8 @@ func Unsubscribe(chans *ControlChans) {
 
 // Pause sends a pause signal to all subscribers.
 func Pause(message ...string) {
+	defer manager.acquire()()
+
 	swap := manager.isPaused.CompareAndSwap(false, true)
 	if !swap {
 		return
@@ -70,6 +85,15 @@ func Pause(message ...string) {
 
 // Resume reads from each subscriber's ResumeCh to unblock them.
 func Resume() {
+	defer manager.acquire()()
+
+	// Nothing to resume if the pipeline is not paused: the subscribers only send on their ResumeCh
+	// after a pause, reading from it would block until they all exit. Without the lock, two controllers
+	// resuming at the same time would also steal each other's acknowledgements and one would block forever.
+	if !manager.isPaused.Load() {
+		return
+	}
+
 	var wg sync.WaitGroup
 	manager.subscribers.Range(func(key, _ interface{}) bool {
 		chans := key.(*ControlChans)
